@@ -770,6 +770,9 @@ func main() {
 	group("SrcStaleIfError.v", func() {
 		translateCanStaleOnError(intByName, intCE, &out)
 	})
+	group("SrcTimed.v", func() {
+		translateRoundTripTimed(rootByName, &out)
+	})
 	group("SrcOrigin.v", func() {
 		translateEffects(effSpec{file: "helpers.go", fn: "sameOrigin", coq: "src_same_origin", params: "(a b : url)", ret: "bool", pure: true,
 			env: func() *eenv {
